@@ -27,20 +27,23 @@ THEOREMS = {
     "C06_array_split_concat": "np.array_split model: the n >= 1 sections concatenate to the list (also n > len)",
     "C06_array_split_sizes": "there are n sections; the first len mod n have len/n+1 elements, the others len/n",
     "C06_candidates_spec": "candidate ids are strictly ascending and are exactly the ids of screen plates that have an unobserved row and are not in the batch",
-    "C06_chunks_partition": "all n_chunks >= 1: every chunk index succeeds and the ids handed to the scorer, concatenated over chunk indices, are the candidate list (each once, nothing else)",
+    "C06_chunks_partition": "all n_chunks >= 1: every chunk index succeeds and the ids handed to the scorer, concatenated over chunk indices, are the candidate list",
+    "C06_chunks_cover_once": "the same in the property's words: no id twice, and an id is scored iff it is an unobserved plate of the screen not in the batch",
     "C06_chunks_disjoint": "two different chunk indices share no plate id",
     "C06_unknown_batch_rejected": "a non-empty batch none of whose ids is a plate of the screen makes score_chunk raise (every chunk)",
     "C06_unconditioned_rows": "empty batch: a candidate is scored on its own rows, in storage order",
-    "C06_conditioned_rows": "non-empty batch: a candidate is scored on first-occurrence-unique(rows of the screen, in storage order, whose plate is the candidate or in the batch); no two kept rows share (sample, treatments); same key set as the union; kept rows are a sub-list of the union",
+    "C06_conditioned_rows": "non-empty batch: a candidate is scored on first-occurrence-unique(rows of the screen, in storage order, whose plate is the candidate or in the batch); no two kept rows share (sample, treatments); same key set as the union; kept rows belong to the union",
     "C06_conditioned_first_occurrence": "a row of the union is kept iff no earlier row of the union (storage order) has its (sample, treatments)",
-    "C06_select_sound": "any order (repeats allowed) that contains every chunk index: the pipeline does not raise; the returned plate is a candidate (unobserved, not in batch), allowed by the policy, and no allowed plate has a strictly smaller score",
-    "C06_select_sound_perm": "the same for every permutation of the chunk indices",
-    "C06_none_iff": "None is returned iff the policy allows no plate (no policy: iff there is no candidate)",
-    "C06_ties_first": "plate_id_with_minimum_score returns the FIRST slot in storage order among the eligible slots of minimal score (numpy argmin)",
-    "C06_ties_identity_order": "chunks combined in index order: among tied minimal allowed plates the smallest plate id is returned",
-    "C06_save_load": "load_h5(save_h5(h)) has the same slots and current_index (size becomes len(scores))",
     "C06_exact_fill": "a scorer returning one score per handed plate fills the chunk holder exactly: slots = (id, score) in handed order, current_index = size",
     "C06_overfill_raises": "add_score on a holder whose current_index is past the end raises",
+    "C06_save_load": "load_h5(save_h5(h)) has the same slots and current_index (size becomes len(scores))",
+    "C06_select_sound": "any order (repeats allowed) that contains every chunk index: the pipeline does not raise; the returned plate is a candidate (unobserved, not in batch), allowed by the policy, and no allowed plate has a strictly smaller score; None only if nothing is allowed",
+    "C06_select_sound_perm": "the same for every permutation of the chunk indices",
+    "C06_none_iff": "None is returned iff the policy allows no plate",
+    "C06_none_iff_no_policy": "without a policy: None iff no plate of the screen is unobserved and outside the batch",
+    "C06_ties_first": "plate_id_with_minimum_score returns the FIRST slot in storage order among the eligible slots of minimal score (numpy argmin)",
+    "C06_ties_storage_order": "in the pipeline the storage order is: chunks in the order combined, each in ascending plate id; earlier allowed slots are strictly worse",
+    "C06_ties_identity_order": "chunks combined in index order: among tied minimal allowed plates the smallest plate id is returned",
 }
 ASSUMPTIONS = [
     "h5py dataset/attribute write then read is the identity on float64/int64 arrays and ints (exercised by every holder and pipeline case)",
